@@ -1,4 +1,5 @@
 SPECIFICATION Spec
 INVARIANT Inv_Enforced
 INVARIANT Inv_Complete
+INVARIANT Inv_SameRelSeq
 CHECK_DEADLOCK FALSE
